@@ -64,6 +64,10 @@ class C06(Harness):
         for where in ('same', 'sub'):
             for dep2 in (['y'], ['x', 'y']):
                 out.append({'shape': 'oninit_assign', 'where': where, 'dep2': dep2, 'm': [['on_init', ['x']]], 'L': 1})
+        # a dependent method that ends by raising param.Skip ("nothing to report"): swallowed on every dispatch path, counted as a call
+        for s in (('x',), ('x', 'n:bounds'), ('x', 'y')):
+            for mode in ('watch', 'queued'):
+                out.append({'shape': 'single', 'm': [[mode, list(s)]], 'L': L, 'skip': True})
         # function form with Parameter-object dependencies
         for s in (('x',), ('x', 'y')):
             out.append({'shape': 'function', 'm': [['watch', list(s)]], 'L': L})
@@ -78,6 +82,8 @@ class C06(Harness):
         def mk_m(level, decl):
             def m(self):
                 log.append(('m', level, id(self)))
+                if cfg.get('skip'):
+                    raise param.Skip()
             m.__name__ = 'm'
             if decl == 'plain':
                 return m
